@@ -35,6 +35,9 @@ def float_pass(rep, thorough):
                 rep.violation("counterexample", f"C12 whole-model monitor (float): {msg}",
                               {"seed": seed, "size": size, "mode": "float", "config": NG.cfg_json(cfg)}, True)
     rep.monitor["C12_models_float"] = {"models": n, "raised": raised, "violations": viol}
+    # a sewer with temperature data discharging over every arc class (incl. decaying arcs) into receivers that fill up
+    import mon_duo
+    mon_duo.run(rep, thorough, "C12")
     return {}
 
 
